@@ -36,6 +36,7 @@ class Opts(object):
         self.except_as = True
         self.jump_in_handler_finally = False   # known-finding shape (C05), separate stream
         self.finally_prob = 0.5
+        self.methods = False          # `q = Q()` (prelude class, falsy while empty) and calls of its bound methods
         self.lambda_closures = False  # `h = lambda: T(k, x)` stored and called later (closure variables read late)
         self.raising_return = False   # `return o.missing`: evaluating the return value raises AttributeError (needs mutation=True)
         self.rich_finally = False  # compound statements (loops with their own break/continue, nested try) in finally bodies
@@ -158,6 +159,8 @@ class Gen(object):
                 choices += ['klass']
         if o.delete and defined:
             choices += ['del']
+        if o.methods:
+            choices += ['qpush', 'qpush', 'qdrain']
         if o.lambda_closures:
             choices += ['lam'] + (['lamcall'] * 2 if [h for h in self.lams if h in defined] else [])
         if o.mutation:
@@ -175,6 +178,13 @@ class Gen(object):
             return defined, True
         if c == 'append':
             self.emit(ind, 'm.append(%s)' % self.texpr(defined))
+            return defined, True
+        if c == 'qpush':
+            v = r.choice(self.vars)
+            self.emit(ind, '%s = q.push(%s)' % (v, self.texpr(defined)))
+            return defined | {v}, True
+        if c == 'qdrain':
+            self.emit(ind, 'T(%d, q.drain())' % self.key())
             return defined, True
         if c == 'lam':
             h = 'h%d' % self.key()
@@ -338,6 +348,8 @@ def gen_function(rnd, opts=None, name='f'):
     g.emit(0, 'def %s(%s):' % (name, ', '.join(params)))
     if opts.global_:
         g.emit(1, 'global G')
+    if opts.methods:
+        g.emit(1, 'q = Q()')
     defined = set(PARAMS)
     defined = g.block(1, defined, 0, False, False, minlen=2)
     if rnd.random() < 0.8:
